@@ -91,7 +91,40 @@ class BackEdges(prims.Paths):
                     return ("mutcall:" + nm, n)
         return None
 
+    # a draw that yields nothing changes nothing: `if let Some(x) = q.pop_front() {..}` — on the None side the call is no progress
+    DRAWS = ("pop_front", "pop_back", "pop", "next", "next_back")
+
+    def empty_draw(self, init):
+        init = prims._peel(init)
+        if init["k"] in ("call", "mcall") and init.get("callee") and \
+                strip_generics(init["callee"]["path"]).rsplit("::", 1)[-1] in self.DRAWS:
+            return init
+        return None
+
+    def run_cond(self, cond, writes, facts):
+        if cond["k"] == "let_cond":
+            d = self.empty_draw(cond["init"])
+            tag = self.pat_tag(cond["pat"])
+            if d is not None and tag and tag[0] == "Some" and tag[1]:
+                for oc, v, w, f in super().run_cond(cond, writes, facts):
+                    if oc == ("cond", False):
+                        w = tuple(x for x in w if x[1] is not d)
+                    yield oc, v, w, f
+                return
+        yield from super().run_cond(cond, writes, facts)
+
     def run(self, e, writes, facts):
+        if e["k"] == "match" and e.get("src") == "normal" and self.empty_draw(e["scrut"]) is not None:
+            d = self.empty_draw(e["scrut"])
+            for oc, v, w, f in self.run(e["scrut"], writes, facts):
+                if oc != "norm":
+                    yield oc, v, w, f
+                    continue
+                for arm in e["arms"]:
+                    tag = self.pat_tag(arm["pat"])
+                    w2 = tuple(x for x in w if x[1] is not d) if tag and tag[0] == "None" else w
+                    yield from self.run(arm["body"], w2, f)
+            return
         if e["k"] in ("call", "mcall") and e.get("callee") and \
                 strip_generics(e["callee"]["path"]).startswith(("core::panicking::", "std::rt::begin_panic", "core::hint::unreachable_unchecked")):
             yield "ret", None, writes, facts
